@@ -100,6 +100,9 @@ pub trait SubCheckT {
     const NAME: &'static str;
     /// what makes a case non-trivial (goes into the evidence `rule`)
     const RULE: &'static str;
+    /// how often a failing case is re-executed when confirming / replaying it; > 1 for checks whose
+    /// failures depend on heap addresses (pointer-keyed hashes inside the library)
+    const REPLAY_ATTEMPTS: u32 = 1;
     /// total number of cases over all workers
     fn cases(tier: Tier) -> u32;
     fn strategy(tier: Tier) -> BoxedStrategy<Self::Case>;
@@ -433,8 +436,7 @@ pub fn drive<S: SubCheckT>(a: &WorkerArgs) -> WorkerReport {
     match res {
         Ok(()) => {}
         Err(TestError::Fail(reason, shrunk)) => {
-            let mut st = Stats::default();
-            let again = run_guarded::<S>(&shrunk, &mut st);
+            let again = run_attempts::<S>(&shrunk);
             let (sig, detail) = match again {
                 Err(f) => (f.signature, f.detail),
                 Ok(()) => {
@@ -462,8 +464,21 @@ pub fn drive<S: SubCheckT>(a: &WorkerArgs) -> WorkerReport {
 
 pub fn replay_one<S: SubCheckT>(v: &Value) -> Result<CaseResult, String> {
     let case: S::Case = serde_json::from_value(v.clone()).map_err(|e| format!("cannot decode case: {e}"))?;
-    let mut st = Stats::default();
-    Ok(run_guarded::<S>(&case, &mut st))
+    Ok(run_attempts::<S>(&case))
+}
+
+/// run a case up to REPLAY_ATTEMPTS times (with the heap perturbed in between) and return the first failure
+pub fn run_attempts<S: SubCheckT>(case: &S::Case) -> CaseResult {
+    let mut pads: Vec<Vec<u8>> = Vec::new();
+    for k in 0..S::REPLAY_ATTEMPTS.max(1) {
+        let mut st = Stats::default();
+        let r = run_guarded::<S>(case, &mut st);
+        if r.is_err() {
+            return r;
+        }
+        pads.push(vec![0u8; 1000 + 4096 * (k as usize % 7) + 16 * k as usize]);
+    }
+    Ok(())
 }
 
 /// helper for hand-written (non-proptest) workers: iterate `total` items split across workers
@@ -591,6 +606,8 @@ pub fn run_check(props: &[Property], id: &str, tier: Tier, seed: u64) -> CheckOu
     let work = Path::new(VERIF_ROOT).join("work").join("run").join(format!("{}-{}-{}", id, tier.name(), std::process::id()));
     let _ = std::fs::create_dir_all(&work);
     let known = load_known();
+    // failures of earlier runs are stale: the tree may have changed since
+    let _ = std::fs::remove_dir_all(Path::new(VERIF_ROOT).join("work").join("failures").join(id));
     let mut violations: Vec<(String, PathBuf)> = Vec::new();
     let mut known_lines: BTreeSet<String> = BTreeSet::new();
     let mut inconclusive: Vec<String> = Vec::new();
